@@ -273,6 +273,7 @@ def world_ab(
     rc: Optional[Dict[str, int]] = None,
     b_accepts: Optional[List[type]] = None,
     q_event: Optional[Event] = None,
+    a_accepts: Optional[List[type]] = None,
 ) -> BrokerState:
     """Step "a": accepts EvA, ``nw`` workers (<=3), busy slots b0..b2, ``q`` queued EvA attempts, optional waiter
     "w1" (waiting for EvC, replaying EVA), collect buffer "buf" with ``buf_live`` EvB events of which the running
@@ -286,7 +287,7 @@ def world_ab(
         w = [waiter("w1", EVA, EvC, timed_out=True)]
     live = {"buf": [EVB] * buf_live} if buf_live > 0 else {}
     snap = {"buf": [EVB] * buf_snap} if buf_snap > 0 else {}
-    cfg_a = step_config([EvA], nw, policy)
+    cfg_a = step_config(list(a_accepts) if a_accepts is not None else [EvA], nw, policy)
     ips = [
         in_progress("a", EVA, i, attempts=att, first_attempt_at=t0, snapshot=snap, waiters=w, recovery_counts=rc)
         for i in busy_ids(3, (b0, b1, b2))
